@@ -70,6 +70,10 @@ CHECKS = {
             "Decides, for every input, the well-formedness clauses that are visible in the shape of the exporter: every placeholder inside a JSON string literal receives a number, a safe-charset value or the output of the complete escaper, and every placeholder in value position the output of a JSON producer (ESC); the escaper is complete (serde_json, or hand-written over chars with quote, backslash and control range) and text is never rebuilt from single bytes (BYTES); value_to_json has an explicit arm per DataValue variant whose rendering fits the payload type (TYPE); on every path through to_webannotation / output_selector / output_subselectors / serialize_context* members and elements are separated by exactly one comma, brackets balance and each function returns a complete value (SEP); every sub-selector is emitted, start/end come from begin()/end() of one selection (TARGET). Faithfulness of the body beyond JSON types and the offset arithmetic behind begin()/end() are not decided (offsets: C04/C12).",
             "trusts syn's parse, serde_json's string serialiser as the complete escaper, and that chrono's to_rfc3339 and nanoid emit no quote, backslash or control character; the separator typestate treats opaque conditions as free booleans (correlated by text), so infeasible paths can only add findings, never hide one",
             "DESIGN.md section 4 C17", "syn"),
+    "C18": ("other", "finite evaluation of the extracted syntax trees of protect_text's per-annotation step, ResultItem<Annotation>::validate_text and AnnotationStore::validate_text over all modes x annotation shapes x stored references, with text/digest/delimiter as opaque injective tokens; writer/reader key-table agreement; loop-carried-state dataflow rule on the store-level loop",
+            "Decides that the two halves of text validation agree for every store: for each of the four modes, 0/1/2 text selections, both sides of the Auto threshold, with and without a delimiter and with or without pre-existing references, what protect_text queues makes validate_text answer Some(true) on the same text token and Some(false) on a different one, and every annotation with text receives validation information (ROUND); each reference is stored under the key and dataset its reader looks up (KEYS); validate_text's verdict table is the required one for all 18 combinations of stored references (VERDICT); the store-level counters partition the annotations by their own verdict (AGG) and no state carried between loop iterations flows into a verdict (DIRECT). That text_join and SHA-1 are functions of exactly the selected characters, and persistence across save/reload, are not decided.",
+            "trusts syn's parse and the evaluator (lib/formula.py); text, digest and delimiter are modelled as opaque injective tokens; any cross-iteration cache in the store-level loop is reported because the adequacy of a cache key cannot be decided statically",
+            "DESIGN.md section 4 C18", "syn"),
 }
 
 NA = {
